@@ -55,15 +55,17 @@ PROPS = {
                    GEN_RULE + "; C18 compares times: order of all time points of a report against the model's logical clock, "
                    "durations against the wall-clock bracket of the calls that started/finished the span (20us + 2% slack), "
                    "begin times against the wall-clock window of the creating call (50 ms slack)"),
-    "C19": {"coq": ["C19"], "streams": [S.jaeger_stream], "replay_sub": "jaeger",
+    "C19": {"coq": ["C19"], "streams": [S.jaeger_stream, S.reporters_stream_for("datadog", 12, 200), S.reporters_stream_for("otel", 12, 200)], "replay_sub": "jaeger",
             "rule": "record batches: random records (boundary ids incl. top bit set, 0, max; random u64 times; UTF-8 names/keys/values "
                     "with multi-byte, NUL and quote characters; 0-3 events with properties), byte-by-byte sweeps of one span across "
                     "the datagram limit, mid-size spans whose sum straddles it, oversize spans at random positions, 0-400 small spans, "
                     "13-17 element lists (long list header); non-trivial = at least one record; distinct by input text",
             "trusted_base": ["harness/reporters (generator, loopback UDP capture with end marker)",
                              "thrift_codec and the OS socket are trusted to the extent the byte comparison exercises them"],
-            "assumptions": ["Datadog and OpenTelemetry reporters: see DESIGN.md (C19 is decided for the Jaeger reporter byte for byte; "
-                            "the other two are compared field by field where the harness can capture them)"]},
+            "assumptions": ["Datadog: the HTTP body is captured by a loopback listener, decoded by the Gallina msgpack reader, compared field by "
+                            "field with convert (meta as a set: HashMap order) and re-encoded byte for byte; OpenTelemetry: the SpanData handed "
+                            "to an in-process exporter is compared field by field; record times are realistic (this century) for these two",
+                            "rmp-serde, reqwest, opentelemetry_sdk are trusted to the extent the comparison exercises them"]},
     "C20": {"coq": ["C20", "C20_consts"], "streams": [S.jaeger_stream], "replay_sub": "jaeger",
             "rule": "same batches as C19; the comparison is on datagram boundaries (count and lengths); the oracle accepts any "
                     "segmentation into datagrams < 8000 bytes that keeps every span fitting alone exactly once in order",
